@@ -373,3 +373,31 @@ Theorem C11_pong_prefix_refuted :
   reader_run false 0 [APacket 100 pong_like] = ([pong_like], SRunning) /\
   is_control_ge pong_like = true.
 Proof. exact pong_prefix_refuted. Qed.
+
+(** Every message of the protocol may arrive in any segmentation, including the
+    server's handshake confirmation (the first packet the client parses, on the
+    raw connection): a well-formed frame at the head of ANY segmented stream is
+    parsed and the rest of the stream is left for the receive loop. *)
+Theorem C11_confirmation_any_segmentation :
+  forall (H : list N -> list N) cstate next, (forall x, length (H x) = 32%nat) ->
+  forall r s nonce payload ct s' rest,
+  wf_msg (nonce, payload) ->
+  xor_stream cstate next s (frame H nonce payload) = (ct, s') ->
+  concat r = ct ++ rest ->
+  exists r2, concat r2 = rest /\ parse_packet H cstate next r s = POk cstate nonce payload r2 s'.
+Proof. intros H cstate next HL. exact (parse_frame_ok H cstate next HL). Qed.
+
+(** rejected designs of round 5 (Proofs/AdnlHistory.v): one conn.Read for the
+    confirmation; a reader that survives its closed channel and reconnects later *)
+Theorem C11_single_read_refuted :
+  (forall k, (k <= 68)%nat ->
+     match parse_packet hH N hnext [firstn k confirmation; skipn k confirmation] 9 with
+     | POk _ _ p _ _ => p = [] | PErr _ _ _ => False end) /\
+  (match confirm_single_read [firstn 4 confirmation; skipn 4 confirmation] 9 with
+   | PErr _ _ _ => True | POk _ _ _ _ _ => False end).
+Proof. split; [exact (proj1 (proj2 single_read_refuted))|exact (proj1 (proj2 (proj2 single_read_refuted)))]. Qed.
+
+Theorem C11_orphan_timer_refuted :
+  handshakes false [(500, SClosed); (12000, SRunning)] = 2%nat /\
+  handshakes true [(500, SClosed); (12000, SRunning)] = 3%nat.
+Proof. exact orphan_timer_refuted. Qed.
